@@ -6,8 +6,8 @@
    seal/open pairs (open (seal p) = Some p), the two ipcrypt permutations. *)
 From Coq Require Import String.
 From Coq Require Import List NArith ZArith Bool Arith.
-From VRL Require Import Base.Bytes Base.Lit Model.ConvRes Model.Padding Model.Modes Model.Ip Model.CipherGlue
-     Proofs.PaddingProofs Proofs.ModesProofs Proofs.CipherProofs Proofs.IpCryptProofs.
+From VRL Require Import Base.Bytes Base.Lit Model.ConvRes Model.Padding Model.Modes Model.Ip Model.CipherGlue Model.IpPfx
+     Proofs.PaddingProofs Proofs.ModesProofs Proofs.CipherProofs Proofs.IpCryptProofs Proofs.IpPfxProofs.
 Import ListNotations.
 
 (* ---- paddings: every scheme, every message length (exact multiples of the block get a whole padding block),
@@ -118,6 +118,30 @@ Theorem C23_ip_roundtrip : forall Q : ipprims,
   exists c, encrypt_ip Q s key mode = IpOk c /\ decrypt_ip Q c key mode = IpOk (ip_text a).
 Proof. exact ip_roundtrip. Qed.
 Print Assumptions C23_ip_roundtrip.
+
+(* ---- the `pfx` permutation need not be assumed: ipcrypt-pfx (Model/IpPfx.v, the bit loop of ipcrypt_rs over two
+        AES-128 keys) is invertible over ANY block cipher, keeps 16 bytes 16 bytes and, in IPv4 mode, the mapped prefix ---- *)
+Theorem C23_pfx_invertible : forall (E : cipher) (k b : bytes), ip_wf b ->
+  (forall v, ip_wf (pfx_encrypt_bytes E k v b))
+  /\ pfx_decrypt_bytes E k false (pfx_encrypt_bytes E k false b) = b
+  /\ (is_mapped b = true -> is_mapped (pfx_encrypt_bytes E k true b) = true
+                            /\ pfx_decrypt_bytes E k true (pfx_encrypt_bytes E k true b) = b).
+Proof.
+  intros E k b H. split; [intros v; apply pfx_keeps_wf; exact H|]. split; [apply pfx_inverse6; exact H|].
+  intros Hm. split; [apply pfx_keeps_mapped; assumption | apply pfx_inverse4; assumption].
+Qed.
+Print Assumptions C23_pfx_invertible.
+
+(* so for mode "pfx" the round trip rests on no hypothesis about the cipher at all, and for "aes128" on the block
+   cipher's inverse only *)
+Theorem C23_ip_roundtrip_pfx : forall (E : cipher) (dE dD : bytes -> bytes -> bytes),
+  (forall k b, ip_wf b -> ip_wf (dE k b)) -> (forall k b, ip_wf b -> dD k (dE k b) = b) ->
+  forall (a : ipaddr) (s key mode : bytes),
+  wf_addr a -> parse_ip s = Some a -> key_ok key mode -> known_ip_class (pfx_ipprims E dE dD) a key mode = false ->
+  exists c, encrypt_ip (pfx_ipprims E dE dD) s key mode = IpOk c
+            /\ decrypt_ip (pfx_ipprims E dE dD) c key mode = IpOk (ip_text a).
+Proof. exact ip_roundtrip_pfx. Qed.
+Print Assumptions C23_ip_roundtrip_pfx.
 
 (* every well-formed address has a text that parses to it (so the premise parse_ip s = Some a is not vacuous) *)
 Theorem C23_ip_text_parses : forall a : ipaddr, wf_addr a -> parse_ip (ip_text a) = Some a.
